@@ -88,4 +88,60 @@ theorem scanLoop_eq {β : Type} (f : β → β → β) (junk a : β) (ys : List 
     rw [h2, hgi]
     simp [List.getD, hs]
 
+/-- a loop rewriting entry `i` from its own old value, `lo ≤ i < n = length` -/
+theorem ptLoop_eq {β : Type} (G : β → Nat → β) (junk : β) (T t : List β) (lo n : Nat) (hlo : lo ≤ n) (hn : n = t.length)
+    (hT : T.length = n) (hlow : ∀ j, j < lo → T[j]? = t[j]?)
+    (hG : ∀ i (h : i < t.length), lo ≤ i → T[i]? = some (G t[i] i)) :
+    loopAcc lo n (fun s i => s.set i (G (s.getD i junk) i)) t = T := by
+  have key := setLoop_eq (fun s i => G (s.getD i junk) i) T t lo n hlo (by omega) ?_
+  · obtain ⟨k1, k2, k3⟩ := key
+    apply List.ext_getElem?
+    intro j
+    by_cases hj0 : j < lo
+    · rw [k3 j (Or.inl hj0), hlow j hj0]
+    by_cases hjn : j < n
+    · exact k2 j (by omega) hjn
+    · rw [k3 j (by omega)]
+      rw [List.getElem?_eq_none (by omega), List.getElem?_eq_none (by omega)]
+  · intro s i hi1 hi2 hl ha hb
+    have hs : s[i]? = some (t[i]'(by omega)) := by rw [hb i (Or.inr (Nat.le_refl _))]; simp
+    rw [hG i (by omega) hi1]
+    simp [List.getD, hs]
+
+/-- the first loop of `fp2_batched_inv` (pair state `(z, x)`): `z = map isz xs`, `x = zipWith sel xs z` -/
+theorem pairLoop_eq {β : Type} (isz : β → Nat) (sel : β → Nat → β) (junk : β) (xs : List β) (z0 : List Nat) (hz : z0.length = xs.length) :
+    loopAcc 0 xs.length (fun (s : List Nat × List β) i =>
+        ((s.1.set i (isz (s.2.getD i junk))), s.2.set i (sel (s.2.getD i junk) ((s.1.set i (isz (s.2.getD i junk))).getD i 0)))) (z0, xs)
+      = (xs.map isz, List.zipWith sel xs (xs.map isz)) := by
+  generalize hF : (fun (s : List Nat × List β) (i : Nat) =>
+        ((s.1.set i (isz (s.2.getD i junk))), s.2.set i (sel (s.2.getD i junk) ((s.1.set i (isz (s.2.getD i junk))).getD i 0)))) = F
+  have key := loopAcc_inv (fun k (s : List Nat × List β) => k ≤ xs.length → (s.1.length = xs.length ∧ s.2.length = xs.length ∧
+      (∀ j, j < k → s.1[j]? = (xs.map isz)[j]? ∧ s.2[j]? = (List.zipWith sel xs (xs.map isz))[j]?) ∧ (∀ j, k ≤ j → s.2[j]? = xs[j]?)))
+    0 F (z0, xs) ?_ xs.length (Nat.zero_le _) ?_ (Nat.le_refl _)
+  · obtain ⟨k1, k2, k3, k4⟩ := key
+    apply Prod.ext
+    · apply List.ext_getElem?; intro j
+      by_cases hj : j < xs.length
+      · exact (k3 j hj).1
+      · rw [List.getElem?_eq_none (by omega), List.getElem?_eq_none (by simp; omega)]
+    · apply List.ext_getElem?; intro j
+      by_cases hj : j < xs.length
+      · exact (k3 j hj).2
+      · rw [List.getElem?_eq_none (by omega), List.getElem?_eq_none (by simp; omega)]
+  · intro _; exact ⟨hz, rfl, fun j h => absurd h (by omega), fun _ _ => rfl⟩
+  · intro k s _ hk ih _
+    obtain ⟨h1, h2, h3, h4⟩ := ih (by omega)
+    have hs : s.2[k]? = some xs[k] := by rw [h4 k (Nat.le_refl _)]; simp [hk]
+    have e1 : s.2.getD k junk = xs[k] := by simp [List.getD, hs]
+    have e2 : (s.1.set k (isz xs[k])).getD k 0 = isz xs[k] := by simp [List.getD, h1, hk]
+    subst hF; dsimp only
+    simp only [e1, e2]
+    refine ⟨by simp [h1], by simp [h2], ?_, ?_⟩
+    · intro j hj
+      by_cases hjk : j = k
+      · subst hjk; simp [List.getElem?_set, h1, h2, hk, List.getElem?_zipWith]
+      · rw [List.getElem?_set_ne (by omega), List.getElem?_set_ne (by omega)]; exact h3 j (by omega)
+    · intro j hj
+      rw [List.getElem?_set_ne (by omega)]; exact h4 j (by omega)
+
 end SqiProofs.Fp2BatchGen
